@@ -16,7 +16,8 @@ EXPLANATION = (
     "AllowAnyAuthenticatedClient on the `required` edge; (5) on the TLS-configured edge of each TCP listener the buffered stream wraps the "
     "result of TlsAcceptor::accept; (6) insecure_verifier / set_certificate_verifier / the example.com fallback are dominated by the true "
     "edge of the insecure flag, and the crate has exactly one ServerCertVerifier impl."
-    ' cmd-verdict: the verdict cached for the external auth command is ExitStatus::success() or constant false; the cache key is the pair or a struct whose equality compares every field.')
+    ' cmd-verdict: the verdict cached for the external auth command is ExitStatus::success() or constant false; the cache key is the pair or a struct whose equality compares every field.'
+    ' NoClientAuth is returned by client_auth() only behind the None edge of a value that is None exactly when no client block is configured (decided on the desugared function).')
 RULE_TEXT = "instances = dominance queries and call sites listed above"
 TRUSTED = ["rustls certificate validation", "the external auth command's semantics"]
 NOT_DECIDED = ["rustls' validation itself", "timing of cache expiry"]
